@@ -949,16 +949,20 @@ func c17R6(p *Prog, r *Report) {
 			cc := cl.(*ast.CaseClause)
 			for _, ce := range cc.List {
 				for _, st := range cc.Body {
-					as, ok := st.(*ast.AssignStmt)
-					if !ok || len(as.Lhs) != 1 {
-						continue
-					}
-					lhs := exprStr(as.Lhs[0])
-					if strings.HasSuffix(tag, ".ID") {
-						if k, isC := constInt(pinfo, ce); isC && exprStr(as.Rhs[0]) == lhs+"[:0]" {
-							reset[k] = lhs
+					// the reset may sit in an expanded helper: look through nested blocks
+					ast.Inspect(st, func(m ast.Node) bool {
+						as, ok := m.(*ast.AssignStmt)
+						if !ok || len(as.Lhs) != 1 || len(as.Rhs) != 1 {
+							return true
 						}
-					}
+						lhs := exprStr(as.Lhs[0])
+						if strings.HasSuffix(tag, ".ID") {
+							if k, isC := constInt(pinfo, ce); isC && exprStr(as.Rhs[0]) == lhs+"[:0]" {
+								reset[k] = lhs
+							}
+						}
+						return true
+					})
 				}
 			}
 		}
